@@ -79,6 +79,7 @@ Definition tm_kerr (e : kerr) : tm :=
   | KFamilyClass => L_ [N_ 7]
   | KListLen name max len => L_ [N_ 8; tm_bytes name; tm_Z max; tm_Z len]
   | KListPairs name => L_ [N_ 9; tm_bytes name]
+  | KOther name => L_ [N_ 10; tm_bytes name]
   end.
 Definition tm_lerr (e : lerr) : tm :=
   match e with
